@@ -326,7 +326,10 @@ EXTRA_TEXT = [
 # never popped, the in-unsafe flag, the current function's return type, the loop depth); a construct that legitimately
 # changes that state must not let a LATER ill-formed statement through
 CTX_HEAD = ("extern fn srand(seed: int) -> void\nextern fn labs(x: int) -> int\n"
-            "struct CP { x: int }\nunion CU { A { v: int }, B { s: string } }\n")
+            "struct CP { x: int }\nunion CU { A { v: int }, B { s: string } }\n"
+            "resource struct RH { fd: int }\n"
+            "fn mkr(n: int) -> RH {\n    return RH { fd: n }\n}\nshadow mkr { assert true }\n"
+            "fn closer(h: RH) -> int {\n    return h.fd\n}\nshadow closer { assert true }\n")
 CONTEXTS = {
     "none": "",
     "unsafe-block": "    unsafe { (srand 2) }\n",
@@ -347,7 +350,58 @@ ILL = {
     "break-outside-loop": ("break outside a loop", "    break\n"),
     "return-type": ("return of another type", "    if false { return \"s\" } else {}\n"),
     "condition-type": ("non-bool condition", "    if total { (println 1) } else {}\n"),
+    "operand-type": ("int + string", "    (println (+ total \"s\"))\n"),
+    "arity": ("call with one argument too many", "    (noop 1)\n"),
+    "argument-type": ("int passed to a string parameter", "    (println (str_length total))\n"),
+    "undefined-field": ("field that the struct does not have", "    let cp0: CP = CP { x: 1 }\n    (println cp0.zz)\n"),
+    "undefined-variant": ("variant that the union does not have", "    let cu0: CU = CU.Zz { v: 1 }\n    (println 1)\n"),
+    "set-type": ("set of a value of another type", "    let mut mv: int = 1\n    set mv \"s\"\n    (println mv)\n"),
+    "unknown-function": ("call of an undefined function", "    (println (nofn_zz total))\n"),
+    "consumed-resource": ("use of a resource value after it was consumed", "    let rh: RH = (mkr 1)\n    (println (closer rh))\n    (println (closer rh))\n"),
 }
+
+# ill-formed statement x where it stands: the statement rules are enforced by different code for a function body, a
+# nested block, a block used as an expression (match arm), a nested function, statements after a return, ...
+PLACEMENTS = {
+    "if-branch": "    if true {\n@S    } else {}\n",
+    "else-branch": "    if false {} else {\n@S    }\n",
+    "while-body": "    let mut wi: int = 0\n    while (< wi 1) {\n        set wi 1\n@S    }\n",
+    "for-body": "    for fi in (range 0 1) {\n@S    }\n",
+    "unsafe-block": "    unsafe {\n@S    }\n",
+    "bare-block-in-loop-in-if": "    if true {\n        for fj in (range 0 1) {\n            if true {\n@S            } else {}\n        }\n    } else {}\n",
+    "match-statement-arm": "    let pu: CU = CU.A { v: 1 }\n    match pu {\n        A(pm) => {\n@S        }\n        B(pm) => { (println pm.s) }\n    }\n",
+    "match-expression-arm": "    let pu: CU = CU.A { v: 1 }\n    let px: int = match pu {\n        A(pm) => {\n@S            return 0\n        }\n        B(pm) => { return 0 }\n    }\n    (println px)\n",
+    "match-expression-arm-nested-if": "    let pu: CU = CU.A { v: 1 }\n    let px: int = match pu {\n        A(pm) => {\n            if true {\n@S            } else {}\n            return 0\n        }\n        B(pm) => { return 0 }\n    }\n    (println px)\n",
+    "nested-function-body": "    fn inner(total: int) -> int {\n@S        return total\n    }\n    (println (inner 1))\n",
+    "after-return-in-block": "    if false {\n        return 5\n@S    } else {}\n",
+    "after-nested-return": "    if false {\n        if true { return 5 } else { return 6 }\n@S    } else {}\n",
+}
+
+
+MISSING_RETURN = [
+    ("body ends in a let", "    let b: int = (+ a 1)\n    (println b)\n    let c: int = b\n"),
+    ("body ends in a set", "    let mut b: int = a\n    set b 2\n"),
+    ("body ends in a while loop that returns inside", "    let mut b: int = a\n    while (< b 3) {\n        set b (+ b 1)\n        if (== b 2) { return b } else {}\n    }\n"),
+    ("body ends in a for loop that returns inside", "    for i in (range 0 a) {\n        return i\n    }\n"),
+    ("body is an if without else that returns", "    if (> a 0) {\n        return 1\n    }\n"),
+    ("then-branch returns, else-branch ends in a let", "    if (> a 0) {\n        return 1\n    } else {\n        let z: int = 2\n        (println z)\n        let y: int = z\n    }\n"),
+    ("else-branch returns, then-branch ends in a set", "    let mut b: int = a\n    if (> a 0) {\n        set b 1\n    } else {\n        return 2\n    }\n"),
+    ("nested if/else: the innermost else lacks the return", "    if (> a 0) {\n        if (> a 5) { return 1 } else { let q: int = 1\n (println q)\n let r: int = q }\n    } else {\n        return 2\n    }\n"),
+    ("match statement: one arm lacks the return", "    let u: CU = CU.A { v: a }\n    match u {\n        A(m) => { return m.v }\n        B(m) => { (println m.s) }\n    }\n"),
+    ("unsafe block without a return", "    unsafe {\n        (srand a)\n    }\n"),
+    ("while true with a break", "    while true {\n        if (> a 0) { break } else { return 1 }\n    }\n"),
+    ("body ends in an assert", "    assert (> a 0)\n"),
+    ("nested function lacks its return", "    fn inner(q: int) -> int {\n        let w: int = q\n        (println w)\n        let v: int = w\n    }\n    return (inner a)\n"),
+    ("return only inside a nested function", "    fn inner(q: int) -> int {\n        return q\n    }\n    (println (inner a))\n    let z: int = 1\n"),
+]
+RETURNS_OK = [
+    ("returns on both branches", "    if (> a 0) {\n        return 1\n    } else {\n        return 2\n    }\n"),
+    ("tail expression on both branches", "    if (> a 0) {\n        (+ a 1)\n    } else {\n        0\n    }\n"),
+    ("while true that returns", "    let mut b: int = a\n    while true {\n        set b (+ b 1)\n        if (> b 3) { return b } else {}\n    }\n"),
+    ("match statement whose arms all return", "    let u: CU = CU.A { v: a }\n    match u {\n        A(m) => { return m.v }\n        B(m) => { return 0 }\n    }\n"),
+    ("return inside an unsafe block at the end", "    unsafe {\n        (srand a)\n        return 1\n    }\n"),
+    ("early return then final return", "    if (> a 5) { return 9 } else {}\n    return a\n"),
+]
 
 
 def context_product():
@@ -362,6 +416,23 @@ def context_product():
                     body = "    let total: int = (first)\n" + '    (println "SENTINEL")\n' + stmt + "    return total\n"
                     src = CTX_HEAD + "fn noop() -> void { (println 0) }\nshadow noop { assert true }\n" + first + "fn main() -> int {\n" + body + "}\nshadow main { assert true }\n"
                 yield rule, "%s after [%s] in the %s" % (desc, cn, where), src
+    head = CTX_HEAD + "fn noop() -> void { (println 0) }\nshadow noop { assert true }\n"
+    for pn, pl in PLACEMENTS.items():
+        for rule, (desc, stmt) in ILL.items():
+            if rule == "break-outside-loop" and pn in ("while-body", "for-body", "bare-block-in-loop-in-if"):
+                continue      # legal there
+            if rule == "extern-outside-unsafe" and pn == "unsafe-block":
+                continue      # legal there
+            body = "    let total: int = 4\n" + '    (println "SENTINEL")\n' + pl.replace("@S", stmt) + "    return total\n"
+            yield rule, "%s placed in [%s]" % (desc, pn), head + "fn main() -> int {\n" + body + "}\nshadow main { assert true }\n"
+        ok = "    (println total)\n"
+        body = "    let total: int = 4\n" + '    (println "SENTINEL")\n' + pl.replace("@S", ok) + "    return 0\n"
+        yield "seed", "placement [%s] with a well-formed statement" % pn, head + "fn main() -> int {\n" + body + "}\nshadow main { assert true }\n"
+    # a function that declares a result must return one on every path
+    for desc, body in MISSING_RETURN:
+        yield "missing-return", desc, head + "fn g(a: int) -> int {\n" + body + "}\nshadow g { assert true }\nfn main() -> int {\n    (println \"SENTINEL\")\n    (println (g 1))\n    return 0\n}\nshadow main { assert true }\n"
+    for desc, body in RETURNS_OK:
+        yield "seed", desc, head + "fn g(a: int) -> int {\n" + body + "}\nshadow g { assert true }\nfn main() -> int {\n    (println \"SENTINEL\")\n    (println (g 1))\n    return 0\n}\nshadow main { assert true }\n"
     # the contexts themselves (no ill-formed statement) must be accepted, otherwise the product proves nothing
     for cn, ctx in CONTEXTS.items():
         body = "    let total: int = 4\n" + ctx + '    (println "SENTINEL")\n    return 0\n'
@@ -434,7 +505,7 @@ def run(tier):
         rep.count("transitions", 3)
         if is_seed:
             bad_tools = [tool for tool in ("nanoc -o", "nano_virt --run", "nano_virt --emit-nvm -o") if r[tool]["rc"] != 0]
-            if bad_tools and "nested-fn" in desc and bad_tools == ["nanoc -o"]:
+            if bad_tools and ("nested-fn" in desc or "nested-function" in desc) and bad_tools == ["nanoc -o"]:
                 continue      # nested functions do not compile natively (C04's open finding); the bytecode tools judge these contexts
             if bad_tools:
                 # a valid seed that is refused is not this property's violation (C02 / C04 judge it); its mutants are
@@ -460,6 +531,10 @@ def run(tier):
                 # signature: the only rule violated is a reference to a variable whose scope has ended / is another
                 # function's; failure class: accepted by type_check, then refused late (cc / codegen) or run
                 fid = "typechecker-scope-leak-accepts-out-of-scope"
+            if rule == "consumed-resource" and "resource-use-after-consume-not-fatal" in findings and all(
+                    "after it has been consumed" in r[t]["err"] or "already consumed" in r[t]["err"] for t in ("nanoc -o", "nano_virt --run", "nano_virt --emit-nvm -o")):
+                # signature: the only rule violated is the affine one, and every tool DID print the use-after-consume diagnostic
+                fid = "resource-use-after-consume-not-fatal"
             if fid:
                 rep.known_finding(fid, findings[fid]["what"])
                 continue
@@ -477,7 +552,7 @@ def run(tier):
     rep.sample({"rule": muts[-3][0], "what": muts[-3][1], "source": muts[-3][2]})
     rep.assumptions += ["every mutant violates its rule by construction (type-directed operators over well-typed seeds)",
                         "extern calls inside expressions without 'unsafe' are not judged: the specification's own section 6.4 example does exactly that",
-                        "resource (affine) types are not in the core-language seeds"]
+                        "resource (affine) types: only the use-after-consume rule, on one straight-line shape per placement / context"]
     rep.coverage["seeds_refused"] = len(seeds_refused)
     if seeds_refused and not rep.violations:
         # nothing else was found, and part of the enumeration was vacuous: that is a machinery problem, not a verdict
